@@ -209,7 +209,17 @@ Definition relabel_rules (rs : list rrule) (l : labels) : option labels :=
 
 (* ---- case format of the `translate` engine ---- *)
 Definition contains_char (c : Ascii.ascii) (s : string) : bool := negb (all_chars (fun x => negb (Ascii.eqb x c)) s).
-Definition x_needs_port (s : string) : bool := negb (contains_char (Ascii.ascii_of_nat 58) s).
+(* addPort (net.SplitHostPort fails on s, succeeds on s:1234) on the addresses the engine generates: no colon at all, or
+   an IPv6 literal in brackets without a port *)
+Fixpoint last_char (s : string) : option Ascii.ascii :=
+  match s with
+  | EmptyString => None
+  | String c r => match last_char r with None => Some c | x => x end
+  end.
+Definition bracketed (s : string) : bool :=
+  match s with String c _ => Ascii.eqb c (Ascii.ascii_of_nat 91) | EmptyString => false end &&
+  match last_char s with Some c => Ascii.eqb c (Ascii.ascii_of_nat 93) | None => false end.
+Definition x_needs_port (s : string) : bool := negb (contains_char (Ascii.ascii_of_nat 58) s) || bracketed s.
 Definition x_addr_ok (s : string) : bool := negb (contains_char (Ascii.ascii_of_nat 47) s).
 Definition x_interval_ok (i t : string) : bool := negb (String.eqb i "bad") && negb (String.eqb t "bad").
 
